@@ -377,7 +377,7 @@ type famResult struct {
 }
 
 const (
-	stallHorizon = 150 * time.Second // harness-level deadline for ONE case; see the package comment
+	stallHorizon = 60 * time.Second // harness-level deadline for ONE case; see the package comment
 	maxRestarts  = 400
 )
 
@@ -386,9 +386,15 @@ type runOut struct {
 	exitCode int
 	sig      syscall.Signal
 	stalled  bool
+	passed   bool // spawnUntil: the run got past the case in question
 }
 
 func spawn(fam string, shard, nshard, start int, only bool, tag string, horizon time.Duration) runOut {
+	return spawnUntil(fam, shard, nshard, start, only, tag, horizon, -1)
+}
+
+// spawnUntil is spawn, except that the worker is stopped as soon as it has got past case stopAfter (>= 0).
+func spawnUntil(fam string, shard, nshard, start int, only bool, tag string, horizon time.Duration, stopAfter int) runOut {
 	cmd := exec.Command(os.Args[0], os.Args[1:]...)
 	o := "0"
 	if only {
@@ -429,6 +435,10 @@ func spawn(fam string, shard, nshard, start int, only bool, tag string, horizon 
 			return ro
 		case <-tick.C:
 			p := readProg(fam, shard, tag)
+			if stopAfter >= 0 && p > int64(stopAfter) && !ro.passed {
+				ro.passed = true
+				cmd.Process.Kill()
+			}
 			if p != last {
 				last, lastChange = p, time.Now()
 			} else if time.Since(lastChange) > horizon && !ro.stalled {
@@ -532,10 +542,24 @@ func runFamily(r *ev.Run, fam string, ncases, nshard int, describe func(i int) a
 					fr.stalls++
 					if ro2.stalled {
 						fr.viols = append(fr.viols, pviol{fam, at, "hang@" + blockedSite(ro2.out), fmt.Sprintf("case made no progress within the %s harness horizon, twice (second time alone in a fresh process)", stallHorizon), describe(at)})
+						mu.Unlock()
 					} else {
-						r.Cap(fmt.Sprintf("%s case %d stalled once but completed when re-run alone (not reported)", fam, at))
+						// alone it completes: does it stall again after the same predecessors? (a request that leaves
+						// something behind - a lock that is never released - makes a LATER request hang)
+						mu.Unlock()
+						tag3 := fmt.Sprintf("_seq%d", s)
+						os.Remove(resPath(fam, s, tag3))
+						ro3 := spawnUntil(fam, s, nshard, start, false, tag3, stallHorizon, at)
+						mu.Lock()
+						if ro3.stalled && int(readProg(fam, s, tag3)) == at {
+							fr.viols = append(fr.viols, pviol{fam, at, "hang-after-earlier-cases@" + blockedSite(ro3.out),
+								fmt.Sprintf("case made no progress within the %s harness horizon, twice, each time after the same preceding cases of its worker (cases %d, %d, ... up to it); run alone in a fresh process it completes", stallHorizon, start, start+nshard),
+								map[string]any{"case": describe(at), "first_case_of_the_sequence": start, "stride": nshard}})
+						} else {
+							r.Cap(fmt.Sprintf("%s case %d stalled once but completed when re-run alone and when re-run after its predecessors (not reported)", fam, at))
+						}
+						mu.Unlock()
 					}
-					mu.Unlock()
 				} else if size, oom := oomBlock(ro.out); oom && size < 1<<40 {
 					// died of the harness's own address-space guard on an allocation a large machine could satisfy: not judged
 					mu.Lock()
